@@ -177,5 +177,6 @@ mut('benign-own-random-generator', 'C16', G, "import random", "import random\r\n
 mut('benign-c20-atomic-write', 'C20', ER, "    with open(grammar_file, 'w') as grammar_fp:\n        print('Done editing, writing back results.')\n        for line in grammar:\n            grammar_fp.write(line)\n", "    with open(grammar_file + '.tmp', 'w') as grammar_fp:\n        print('Done editing, writing back results.')\n        for line in grammar:\n            grammar_fp.write(line)\n    os.replace(grammar_file + '.tmp', grammar_file)\n", benign=True, desc='grammar.txt written through a scratch file and renamed into place: no other file of the ruleset is touched')
 mut('revert-F-C17b', 'C17', G, "        try:\r\n            self.output_file.write(guess + '\\n')\r\n        except UnicodeEncodeError:\r\n            pass", "        self.output_file.write(guess)\r\n        self.output_file.write('\\n')")
 mut('revert-F-C07c', 'C07', 'lib_guesser/grammar_io.py', "    with open(filename, 'r', encoding=encoding) as file:\r\n        # Read though all the lines in the file", "    with open(filename, 'r') as file:\r\n        # Read though all the lines in the file")
+mut('revert-F-C09c', 'C09', G, "        self.omen_guess_num = omen_guess_num\r\n\r\n        return self.omen_generate_guesses(markov_cracker, limit)\r\n", "        self.omen_guess_num = omen_guess_num\r\n\r\n        return self.omen_generate_guesses(markov_cracker)\r\n")
 json.dump(M, open(os.path.join(os.path.dirname(os.path.abspath(__file__)), 'mutants.json'), 'w'), indent=1)
 print(len(M), 'mutants')
